@@ -165,9 +165,9 @@ Print Assumptions C23_extrude_nodes.
 (* ---------------------------------------------------------------------------------- *)
 (* Non-vacuity *)
 Example C23_refine_1d_nonvacuous :
-  children 2 (0, 0, 0)%Q (1, 2, 0)%Q
-  = [((lerp (0#1) 0 1, lerp (0#1) 0 2, lerp (0#1) 0 0), (lerp (1#2) 0 1, lerp (1#2) 0 2, lerp (1#2) 0 0));
-     ((lerp (1#2) 0 1, lerp (1#2) 0 2, lerp (1#2) 0 0), (lerp (2#2) 0 1, lerp (2#2) 0 2, lerp (2#2) 0 0))]%Q /\
+  forallb2 (fun p q => veqb (fst p) (fst q) && veqb (snd p) (snd q))%bool
+           (children 2 (0, 0, 0)%Q (1, 2, 0)%Q)
+           [((0, 0, 0), ((1#2), 1, 0)); (((1#2), 1, 0), (1, 2, 0))]%Q = true /\
   (let '(x, ind, sg) := refine_grid_1d [(0, 0, 0); (1, 0, 0); (3, 0, 0)]%Q [(0, 1); (1, 2)] 2 in
    ind = [0; 1; 1; 2; 2; 3; 3; 4] /\ sg = [1; 1; -1; 1; -1; 1; -1; 1]%Z /\ length x = 5).
 Proof. split; vm_compute; repeat split; reflexivity. Qed.
